@@ -222,6 +222,8 @@ def run(ctx, rep):
     # marking
     bad = [c2 for c2 in f.calls('info_set_bad')]
     ref = [c2 for c2 in f.calls('info_make')]
+    direct = [b for b in bad if mark_justified_by_increment(L, f, b)]
+    bad = [b for b in bad if b not in direct]          # the mark(s) of the per-stripe decision
     okb = bool(bad) and all(all(t['silent_error_on_this_block'] == 1 or t['io_error_on_this_block'] == 1 for t in fa.at(b)) for b in bad)
     # completeness: at the decision point every tuple with silent or io goes to the bad mark: the refresh/"nothing" sites never see silent/io
     okr = bool(ref) and all(all(t['silent_error_on_this_block'] == 0 and t['io_error_on_this_block'] == 0 and t['error_on_this_block'] == 0 for t in fa.at(r)) for r in ref)
@@ -375,7 +377,41 @@ def run(ctx, rep):
     pc = parity_compares(g)
     ok3 = len(pc) == 1
     det3 = ''
-    if ok3:
+    if not pc:
+        # the comparison loop may live in a static helper that returns the number of mismatching levels: the helper is judged like the
+        # inline loop, and the caller must add its result to the error counter, after the recomputation of the parity
+        from .C05 import locate_in_helpers
+        hlp = locate_in_helpers(P, g, lambda x: bool(parity_compares(x)))
+        if hlp is not None and hlp is not g:
+            rep.analysed(hlp)
+            hp = parity_compares(hlp)
+            okh = len(hp) == 1 and hlp.loop_of(hp[0].block) is not None
+            deth = ''
+            if okh:
+                lp_ = hlp.loop_of(hp[0].block)
+                hdr_ = hlp.term(lp_)
+                bound_ = hlp.xexpr(hdr_.ops[0]) if hdr_.op == 'br' and len(hdr_.ops) == 3 else ''
+                cnt = [i for i in hlp.all_insts() if i.op == 'store' and hlp.inst_of(i.ops[0]) is not None and hlp.inst_of(i.ops[0]).op == 'add' and hlp.const_of(hlp.inst_of(i.ops[0]).ops[1]) == 1
+                       and hlp.inst_of(i.ops[1]) is not None and hlp.inst_of(i.ops[1]).op == 'alloca']
+                okm_ = False
+                for br, ci in cond_branches_on_call(hlp, hp[0]):
+                    me = mismatch_edge(hlp, br, ci)
+                    if me:
+                        lat = [x for x in hlp.loops[lp_] if lp_ in hlp.succ[x]]
+                        okm_ = must_increment(hlp, me[0], cnt, lat)
+                # the counter incremented on the mismatch edge is what the helper returns
+                cal = {hlp.strip(i.ops[1])[1] for i in cnt}
+                okr_ = any(('const', 1) in hlp.value_sources(r_.ops[0]) and hlp.inst_of(r_.ops[0]) is not None and hlp.inst_of(r_.ops[0]).op == 'load' and hlp.strip(hlp.inst_of(r_.ops[0]).ops[0])[1] in cal for r_ in hlp.returns() if r_.ops)
+                hc = [c_ for c_ in g.calls() if c_.callee_full == hlp.name]
+                rp = list(g.calls('repair'))
+                oku_ = len(hc) == 1 and len(rp) == 1 and g.dominates(rp[0], hc[0]) and any(u.op == 'add' and any(w.op == 'store' and g.expr(w.ops[1]) == '&error' for w in g.users.get(u.id, ())) for u in g.users.get(hc[0].id, ()))
+                okh = 'state->level' in bound_ and okm_ and okr_ and oku_
+                deth = 'in helper %s: bound %s, mismatch counted %s, count returned %s, added to error after repair %s' % (base(hlp.name), bound_, okm_, okr_, oku_)
+            rep.check(okh, 'R-C04-3', 'check: parity check of every level', hp[0].loc() if hp else g.file, deth, function='state_check_process', construct='parity check')
+            pc = None
+    if pc is None:
+        pass
+    elif ok3:
         p = pc[0]
         lp = g.loop_of(p.block)
         hdr = g.term(lp)
@@ -391,7 +427,8 @@ def run(ctx, rep):
         # gated only by used_parity && valid_parity (and not auditonly)
         ok3 = 'state->level' in bound and okm and len(rp) == 1 and g.dominates(rp[0], p)
         det3 = 'bound %s, mismatch counted %s, repair (recomputes parity) dominates' % (bound, okm)
-    rep.check(ok3, 'R-C04-3', 'check: parity check of every level', pc[0].loc() if pc else g.file, det3, function='state_check_process', construct='parity check')
+    if pc is not None:
+        rep.check(ok3, 'R-C04-3', 'check: parity check of every level', pc[0].loc() if pc else g.file, det3, function='state_check_process', construct='parity check')
     # R-C04-5 status
     s = P.fn('state_status')
     rep.analysed(s)
@@ -571,6 +608,13 @@ def bypass_rule(P, rep, rid):
               function='state_check_process', construct='flag bypass')
     bads = [(k, t.line) for k, t in state_byp if k not in allowed_states]
     rep.check(not bads, rid, 'state-based bypass only for CHG / DELETED', f.file, 'bypassing states %s' % sorted({k for k, _ in state_byp}) if not bads else 'blocks in state %s are not verified' % bads, function='state_check_process', construct='state bypass')
+
+
+def mark_justified_by_increment(L, f, mark):
+    """a bad mark that every path from the top of the stripe iteration reaches only through ++io_error / ++silent_error (the error
+    was just counted for this very stripe, e.g. the mark placed on the path that stops the run at the error limit)"""
+    incs = [i for c_ in ('io_error', 'silent_error') for i in L.increments(c_) if i.block in L.body]
+    return bool(incs) and f.must_pass(mark, incs, start=L.block_first(L.header))
 
 
 def is_bad_sites(P, f, value):
